@@ -109,7 +109,8 @@ def srvObs (ws : List String) : String :=
     | some "max" => some 18446744073709551615
     | some t => if !t.isEmpty && t.length ≤ 20 && t.all Char.isDigit then
         t.toNat?.bind fun n => if n ≤ 18446744073709551615 then some n else none else none
-  let lstOk := match kv ws "lst" with | none => true | some l => l == "tcp" || l == "uds" || l == "udsl"
+  let lstOk := (match kv ws "lst" with | none => true | some l => l == "tcp" || l == "uds" || l == "udsl") &&
+    (match kv ws "sysexit" with | none => true | some v => v == "1")
   match tmo, lstOk with
   | none, _ | _, false => "bad-op"
   | some timeout, true =>
@@ -218,6 +219,8 @@ def faultObs (ws : List String) : String :=
   -- paused and is in the rotation after resume
   let sigs : Option Bool := match kv ws "signals" with | none => some false | some "1" => some true | _ => none
   let prep : Option Bool := match kv ws "pausedrep" with | none => some false | some "1" => some true | _ => none
+  let sysOk := match kv ws "sys" with | none => true | some v => v == "1"
+  if !sysOk then "bad-op" else
   match sigs, prep with
   | none, _ | _, none => "bad-op"
   | some _, some pp =>
@@ -261,6 +264,8 @@ def faultObs (ws : List String) : String :=
 def sigObs (ws : List String) : String :=
   if kv ws "skip" == some "ports" then "skipped" else
   let sig : Option Src.Signal := match kv ws "sig" with | some "int" => some .Int | some "term" => some .Term | some "quit" => some .Quit | _ => none
+  let rtOk := match kv ws "rt" with | none => true | some r => r == "system" || r == "tokio"
+  if !rtOk then "bad-op" else
   match sig, (kv ws "hold").bind parseHolds with
   | some sig, some [_] =>
     let run := ServerCmd.serve ServerCmd.srcWakeFirst 1 [.signal sig]
@@ -315,7 +320,7 @@ def step (st : State) (line : String) : State × String :=
   | "sig" :: _ => (st, sigObs ws)
   | ["k-shape"] =>
     -- structural facts read from the source by T1; the harness prints what C06 demands
-    (st, s!"none-arm-polls-stop={bit Src.wkNoneArmPollsStop} run-breaks-on-stopping={bit Src.srRunBreaksOnStopping} stop-sends-eagerly={bit Src.hsStopSendsEagerly} await-guard={Src.hcAwaitGuard} mux-hands-on-cmd-rx={bit Src.smMuxHandsOnCmdRx} default-timeout={Src.wcDefaultShutdownSecs} default-conns={Src.wcDefaultMaxConn} builder-starts-from-default={bit Src.sbStartsFromDefaultConfig} stop-drops-undelivered={bit Src.hsStopDropsUndelivered} join-waits-for-all={bit Src.jaWaitsForAll}")
+    (st, s!"none-arm-polls-stop={bit Src.wkNoneArmPollsStop} run-breaks-on-stopping={bit Src.srRunBreaksOnStopping} stop-sends-eagerly={bit Src.hsStopSendsEagerly} await-guard={Src.hcAwaitGuard} mux-hands-on-cmd-rx={bit Src.smMuxHandsOnCmdRx} default-timeout={Src.wcDefaultShutdownSecs} default-conns={Src.wcDefaultMaxConn} builder-starts-from-default={bit Src.sbStartsFromDefaultConfig} stop-drops-undelivered={bit Src.hsStopDropsUndelivered} join-waits-for-all={bit Src.jaWaitsForAll} system-stop-if-any={bit Src.hcSystemStopIfAny}")
   | ["k-worker"] =>
     (st, s!"tick-first={Src.wkTickFirstMs} tick-next={Src.wkTickNextMs} init={Src.wcInit}")
   | ["k-timedout", e, t] => match e.toNat?, t.toNat? with
